@@ -546,15 +546,47 @@ def d_delegate( ctx ):
         else:
             res.bad( src, c_, '__getitem__: %s may raise NameError / IndexError / TypeError' % norm_text( c_ )[:50],
                      'membership, get() and hasattr() only catch KeyError: "x[0]" in d raises NameError and d.get( "m[9]", default ) raises IndexError instead of answering False / default - membership no longer agrees with lookup' )
+    # ... and so is the subscription of whatever the first segment addressed with the rest of the path ( a list or a str asked for a name
+    # raises TypeError ): the call through the foreign __getitem__ is wrapped the same way
+    gets_ = [ c_ for c_ in ast.walk( gi_ ) if isinstance( c_, ast.Call ) and isinstance( c_.func, ast.Name ) and c_.args
+              and any( isinstance( a_, ast.Assign ) and any( isinstance( t_, ast.Name ) and t_.id == c_.func.id for t_ in a_.targets ) and is_call_to( a_.value, 'getattr' )
+                       and len( a_.value.args ) >= 2 and try_fold( a_.value.args[1] ) == '__getitem__' for a_ in ast.walk( gi_ )) ]
+    if not gets_:
+        raise AnalysisError( 'dotdict_base.__getitem__: the subscription of the addressed value with the rest of the path ( getter( rest )) not found' )
+    for c_ in gets_:
+        trs = [ a_ for a_ in src.ancestors( c_ ) if isinstance( a_, ast.Try ) and any( c_ is x_ for b_ in a_.body for x_ in ast.walk( b_ )) ]
+        conv = [ h_ for t_ in trs for h_ in t_.handlers if ( h_.type is None or dotted( h_.type ) in ( 'Exception', 'BaseException' ) or ( isinstance( h_.type, ast.Tuple ) and 'TypeError' in { dotted( e_ ) for e_ in h_.type.elts } ) or dotted( h_.type ) == 'TypeError' )
+                 and any( isinstance( r_, ast.Raise ) and r_.exc is not None and is_call_to( r_.exc, 'KeyError' ) for r_ in ast.walk( h_ )) ]
+        if conv:
+            res.ok( src, c_, '__getitem__: a value that cannot be subscripted with the rest of the path is reported as KeyError' )
+        else:
+            res.bad( src, c_, '__getitem__: %s may raise TypeError / IndexError' % norm_text( c_ ),
+                     'with d.l = [ 1, 2 ], d["l.x"] and "l.x" in d raise TypeError ( list indices must be integers ) instead of KeyError / False: membership and get() only catch KeyError' )
     # pop( key, default ) never raises for a missing path
     pp_ = src.get( 'dotdict_base.pop' )
-    first = [ c_ for c_ in ast.walk( pp_ ) if isinstance( c_, ast.Call ) and isinstance( c_.func, ast.Attribute ) and c_.func.attr == '__getitem__' and is_call_to( c_.func.value, 'super' ) ]
-    if first:
-        trs = [ a_ for a_ in src.ancestors( first[0] ) if isinstance( a_, ast.Try ) and any( first[0] is x_ for b_ in a_.body for x_ in ast.walk( b_ )) and any( dotted( h_.type ) in ( 'KeyError', 'Exception' ) or h_.type is None for h_ in a_.handlers ) ]
-        if trs:
-            res.ok( src, first[0], 'pop: a missing first level honours the supplied default' )
+    first = [ c_ for c_ in ast.walk( pp_ ) if isinstance( c_, ast.Call ) and isinstance( c_.func, ast.Attribute ) and c_.func.attr == '__getitem__' ]
+    if not first:
+        raise AnalysisError( 'dotdict_base.pop: the lookup of the level that holds the popped key not found' )
+    def handled( node ):
+        return [ a_ for a_ in src.ancestors( node ) if isinstance( a_, ast.Try ) and any( node is x_ for b_ in a_.body for x_ in ast.walk( b_ ))
+                 and any( h_.type is None or dotted( h_.type ) in ( 'KeyError', 'Exception', 'LookupError' ) for h_ in a_.handlers ) ]
+    if handled( first[0] ):
+        res.ok( src, first[0], 'pop: a missing first level honours the supplied default' )
+    else:
+        res.bad( src, first[0], 'pop: %s outside any KeyError handler' % norm_text( first[0] )[:60], 'd.pop( "zz.y", None ) raises KeyError although a default was supplied (dict.pop semantics; del and lookup of the same path agree that it is simply absent)' )
+    # ... the level is found the way lookup finds it ( self.__getitem__: an indexed segment 'l[0]' is evaluated ), not by the raw mapping
+    if is_call_to( first[0].func.value, 'super' ):
+        res.bad( src, first[0], 'pop looks the level up with the raw mapping ( %s )' % norm_text( first[0] )[:70], 'an indexed interior segment is not a key of the mapping: d.pop( "l[0].x", None ) returns the default and pops nothing although d["l[0].x"] exists and del d["l[0].x"] works' )
+    else:
+        res.ok( src, first[0], 'pop resolves the level through __getitem__ ( indexed segments included ), like lookup and del' )
+    # ... and a path that runs into a non-level value is absent, too: that refusal is inside the same handler
+    nonlevel = [ r_ for r_ in ast.walk( pp_ ) if isinstance( r_, ast.Raise ) and r_.exc is not None and is_call_to( r_.exc, 'KeyError' )
+                 and any( isinstance( i_, ast.If ) and any( is_call_to( c_, 'isinstance' ) for c_ in ast.walk( i_.test )) and any( r_ is x_ for b_ in i_.body for x_ in ast.walk( b_ )) for i_ in src.ancestors( r_ )) ]
+    for r_ in nonlevel:
+        if handled( r_ ):
+            res.ok( src, r_, 'pop: a path through a non-level value honours the supplied default' )
         else:
-            res.bad( src, first[0], 'pop: %s outside any KeyError handler' % norm_text( first[0] )[:60], 'd.pop( "zz.y", None ) raises KeyError although a default was supplied (dict.pop semantics; del and lookup of the same path agree that it is absent)' )
+            res.bad( src, r_, 'pop: %s outside the handler that returns the default' % norm_text( r_ )[:70], 'd.a = 3; d.pop( "a.b", None ) raises KeyError although a default was supplied' )
     # __copy__: a list of levels is copied level by level ( copy.copy of a list shares its elements )
     cp_ = src.get( 'dotdict_base.__copy__' )
     handles_lists = any( is_call_to( c_, 'isinstance' ) and len( c_.args ) == 2 and 'list' in names_in( c_.args[1] ) for c_ in ast.walk( cp_ )) \
@@ -770,6 +802,48 @@ def _merge_roles( fn ):
     if not run or not lps:
         raise AnalysisError( 'merge: running ( base, length ) pair or sweep loop not found' )
     return tuple( e.id for e in run[0].targets[0].elts ) + tuple( e.id for e in lps[0].target.elts )
+
+
+@rule( 'M-PIECES', props=( 'C19', ), floor=2 )
+def m_pieces( ctx ):
+    """merge: every range it yields is a piece produced by shatter() for the run being emitted, and every piece is yielded: each yield sits
+    in a loop over shatter( ... ) - directly, or over a local bound to that call which is used NOWHERE else.  shatter() is a generator: a
+    second use of the same object ( len / list / logging it ) consumes it, and the emitting loop then yields nothing - every requested
+    register of the run is dropped."""
+    res = Result( 'M-PIECES' )
+    src = ctx.src( MODBUS )
+    fn = src.get( 'merge' )
+    sh = src.get( 'shatter' )
+    if not any( isinstance( y, ( ast.Yield, ast.YieldFrom )) for y in walk_no_nested( sh )):
+        raise AnalysisError( 'shatter is not a generator any more: M-PIECES needs re-reading' )
+    ylds = [ y for y in walk_no_nested( fn ) if isinstance( y, ast.Yield ) ]
+    if len( ylds ) < 2:
+        raise AnalysisError( 'merge: expected the two emitting yields (inside the sweep, and after it), found %d' % len( ylds ))
+    for y in ylds:
+        loop = src.enclosing( y, ( ast.For, ))
+        while loop is not None and not ( isinstance( loop.target, ast.Name ) and isinstance( y.value, ast.Name ) and loop.target.id == y.value.id ):
+            loop = src.enclosing( loop, ( ast.For, ))
+        if loop is None:
+            res.bad( src, y, 'merge yields %s outside a loop over shatter( ... )' % norm_text( y.value ), 'only pieces produced by shatter() respect the transfer limit' )
+            continue
+        it = loop.iter
+        if is_call_to( it, 'shatter' ):
+            res.ok( src, y, 'yielded pieces come straight from `for %s in shatter( ... )`' % loop.target.id )
+            continue
+        if isinstance( it, ast.Name ):
+            binds = [ a for a in walk_no_nested( fn ) if isinstance( a, ast.Assign ) and any( isinstance( t, ast.Name ) and t.id == it.id for t in a.targets ) ]
+            uses = [ n for n in walk_no_nested( fn ) if isinstance( n, ast.Name ) and n.id == it.id and isinstance( n.ctx, ast.Load ) and n is not it ]
+            if binds and all( is_call_to( a.value, 'shatter' ) for a in binds ):
+                # each emitting loop may use the binding that precedes it; any OTHER use consumes the generator
+                other = [ u for u in uses if not any( isinstance( l, ast.For ) and l.iter is u for l in walk_no_nested( fn )) ]
+                if other:
+                    res.bad( src, other[0], 'merge uses the generator %s = shatter( ... ) a second time ( %s )' % ( it.id, norm_text( src.enclosing( other[0], ( ast.stmt, )) or other[0] )[:80] ),
+                             'the first consumer exhausts the generator: with that statement active ( e.g. debug logging enabled ) the emitting loop yields nothing and every requested register of the run is missing from the result' )
+                else:
+                    res.ok( src, y, 'yielded pieces come from %s = shatter( ... ), which is used by the emitting loop only' % it.id )
+                continue
+        res.bad( src, loop, 'merge emits from %s' % norm_text( it ), 'the ranges emitted must be the pieces shatter() produces for the run' )
+    return res
 
 
 @rule( 'M-LIMIT', props=( 'C19', ), floor=3 )
@@ -1731,6 +1805,50 @@ def t_cache( ctx ):
                              'the cached rendering still shows the old instant: str() of the changed timestamp, and anything parsed back from it, is a different instant than its value - comparison and rendering disagree' )
     if n < 5:
         raise AnalysisError( 'timestamp: stores to .value not found (%d)' % n )
+    return res
+
+
+@rule( 'D-ITER', props=( 'C16', ), floor=2 )
+def d_iter( ctx ):
+    """dotdict.iteritems descends ( <x>.iteritems( ... ) ) only into values it has tested to be levels: a single value under
+    isinstance( <x>, dotdict_base ), the elements of a list under a test that covers EVERY element ( all( isinstance( e, dotdict_base ) for
+    e in <list> ), or a per-element test inside the loop ).  A list whose first element is a level and a later one is not ( a list of
+    levels with one element overwritten by a number ) otherwise makes keys() / items() / iteration raise AttributeError."""
+    res = Result( 'D-ITER' )
+    src = ctx.src( 'dotdict.py' )
+    fn = src.get( 'dotdict_base.iteritems' )
+    calls = [ c for c in ast.walk( fn ) if isinstance( c, ast.Call ) and isinstance( c.func, ast.Attribute ) and c.func.attr == 'iteritems' and isinstance( c.func.value, ast.Name ) ]
+    if len( calls ) < 2:
+        raise AnalysisError( 'dotdict_base.iteritems: the recursive descents ( <x>.iteritems( ... )) not found (%d)' % len( calls ))
+    for c in calls:
+        X = c.func.value.id
+        guards = [ a.test for a in src.ancestors( c ) if isinstance( a, ast.If ) and any( c is x for b in a.body for x in ast.walk( b )) ]
+        def tests_level( e, name ):
+            inside = { id( t ) for q in ast.walk( e ) if isinstance( q, ( ast.GeneratorExp, ast.ListComp, ast.SetComp )) for t in ast.walk( q ) }
+            return any( pmatch( t, 'isinstance( %s, dotdict_base )' % name ) is not None for t in ast.walk( e ) if id( t ) not in inside )
+        ok = any( tests_level( g, X ) for g in guards )
+        how = 'isinstance( %s, dotdict_base )' % X
+        if not ok:
+            # X is the element variable of a loop over a list: the guard must quantify over that whole list
+            loops = [ a for a in src.ancestors( c ) if isinstance( a, ast.For ) and any( isinstance( t, ast.Name ) and t.id == X for t in ast.walk( a.target )) ]
+            for lp in loops:
+                LST = None
+                it = lp.iter
+                if is_call_to( it, 'enumerate' ) and it.args:
+                    it = it.args[0]
+                LST = dotted( it )
+                for g in guards:
+                    for a_ in ast.walk( g ):
+                        if is_call_to( a_, 'all' ) and a_.args and isinstance( a_.args[0], ( ast.GeneratorExp, ast.ListComp )):
+                            ge = a_.args[0]
+                            if len( ge.generators ) == 1 and dotted( ge.generators[0].iter ) == LST and isinstance( ge.generators[0].target, ast.Name ) \
+                               and not ge.generators[0].ifs and pmatch( ge.elt, 'isinstance( %s, dotdict_base )' % ge.generators[0].target.id ) is not None:
+                                ok = True; how = 'all( isinstance( e, dotdict_base ) for e in %s )' % LST
+        if ok:
+            res.ok( src, c, 'iteritems descends into %s only under %s' % ( X, how ))
+        else:
+            res.bad( src, c, 'iteritems calls %s.iteritems() without having tested that %s is a level ( guards: %s )' % ( X, X, '; '.join( norm_text( g )[:70] for g in guards ) or 'none' ),
+                     'a list whose first element is a level and a later one is not makes key iteration raise AttributeError instead of listing the list as a leaf: keys(), items(), iter() and everything built on them fail for the whole tree' )
     return res
 
 
